@@ -18,6 +18,9 @@ def non_test_span(text):
     return len(text) if i < 0 else i
 
 
+ROUND2 = False
+
+
 def gen_mutants():
     muts = []
     for fn in SRC:
@@ -70,6 +73,37 @@ def gen_mutants():
                     y = group[(i_ + 1) % len(group)]
                     for m in re.finditer(r'(?<![\w])' + re.escape(x) + r'(?![\w])', code):
                         add(m.start(), x, y, 'sibling-name')
+            if ROUND2:
+                # round 2 operators: forced conditions, iteration adapters, swapped holes / arguments, numeric literals inside templates
+                m = re.match(r'^(\s*)(\} else )?if (?!let )(.+) \{\s*$', code)
+                if m:
+                    st_ = len(m.group(1)) + len(m.group(2) or '') + 3
+                    add(st_, m.group(3), 'true', 'force-true')
+                    add(st_, m.group(3), 'false', 'force-false')
+                for m in re.finditer(r'\.iter\(\)', code):
+                    for rep_ in ('.iter().rev()', '.iter().skip(1)', '.iter().take(1)'):
+                        add(m.start(), '.iter()', rep_, 'iter-adapter')
+                holes = list(re.finditer(r'#(\w+)', code))
+                for i_ in range(len(holes) - 1):
+                    a_, b_ = holes[i_], holes[i_ + 1]
+                    if a_.group(1) != b_.group(1) and 'quote' in body[max(0, off - 1500):off + len(line)]:
+                        muts.append({'file': path, 'line': ln, 'pos': off + a_.start(), 'old': code[a_.start():b_.end()],
+                                     'new': '#' + b_.group(1) + code[a_.end():b_.start()] + '#' + a_.group(1), 'op': 'hole-swap'})
+                for m in re.finditer(r'\b(\w+)\((\*?&?[\w.]+), (\*?&?[\w.]+)\)', code):
+                    if m.group(2) != m.group(3) and m.group(1) not in ('format', 'quote', 'assert', 'matches', 'panic', 'println'):
+                        add(m.start(2), m.group(2) + ', ' + m.group(3), m.group(3) + ', ' + m.group(2), 'arg-swap')
+                for m in re.finditer(r'(?<![\w.])(\d+)\.(\d+)(?![\w])', code):
+                    add(m.start(), m.group(0), '0.5' if m.group(0) != '0.5' else '1.5', 'float-literal')
+                for m in re.finditer(r'(?<![\w.#])(\d+)(?![\w.])', code):
+                    if 'quote' in code or code.strip().startswith(('(naga', 'naga::')):
+                        add(m.start(), m.group(1), str(int(m.group(1)) + 1), 'int-literal+1')
+                for m in re.finditer(r' as (usize|u64|u32)', code):
+                    add(m.start() + 4, m.group(1), 'u8', 'narrowing-cast')
+                for m in re.finditer(r'\.filter\(', code):
+                    add(m.start(), '.filter(', '.skip_while(', 'filter->skip_while')
+                for m in re.finditer(r'\bSome\(', code):
+                    if '=> Some(' in code or 'return Some(' in code:
+                        pass
             # statement deletion: a line that is one complete expression statement (method call / macro), not a let / return / brace
             if stripped.endswith(';') and not stripped.startswith(('let ', 'return', 'use ', 'pub ', 'const ', '}', '#', 'type ', 'struct ', 'mod ')) and \
                     stripped.count('(') == stripped.count(')') and '=' not in stripped.split('(')[0] and re.match(r'^[\w.:&*]+[(!]', stripped):
@@ -139,7 +173,14 @@ if __name__ == '__main__':
     nw = int(args[args.index('--workers') + 1]) if '--workers' in args else 8
     limit = int(args[args.index('--limit') + 1]) if '--limit' in args else None
     OUT = args[args.index('--out') + 1] if '--out' in args else '/tmp/automut.jsonl'
+    if '--round2' in args:
+        globals()['ROUND2'] = True
+        base = {(m['file'], m['pos'], m['old'], m['new']) for m in gen_mutants.__wrapped__()} if hasattr(gen_mutants, '__wrapped__') else set()
     muts = gen_mutants()
+    if '--round2' in args:
+        globals()['ROUND2'] = False
+        first = {(m['file'], m['pos'], m['old'], m['new']) for m in gen_mutants()}
+        muts = [m for m in muts if (m['file'], m['pos'], m['old'], m['new']) not in first]
     if '--list' in args:
         from collections import Counter
         print(len(muts), Counter(m['op'] for m in muts))
